@@ -71,6 +71,10 @@ pub struct Case {
     /// the server sends grease and the peer never grants the (fourth) unidirectional stream the grease needs: the
     /// optional grease stream stays pending for the whole run and must not hold anything up
     pub grease_starved: bool,
+    /// the server application has called shutdown(n) itself before the peer's GOAWAY is read
+    pub local_shutdown: Option<usize>,
+    /// the peer's GOAWAY frame arrives in two pieces (frame header, pause, payload)
+    pub goaway_split: bool,
 }
 
 #[derive(Debug, Clone, Default, PartialEq, Eq)]
@@ -103,6 +107,7 @@ pub fn execute(case: &Case, seed: u64) -> Outcome {
     let out = shared(Outcome::default());
     let live = shared(0usize);
     let grease = case.grease_starved;
+    let local_shutdown = case.local_shutdown;
     {
         let (net2, sp, out2, live2, ends) = (net.clone(), ex.spawner(), out.clone(), live.clone(), case.ends.clone());
         ex.spawn("accept-loop", async move {
@@ -112,6 +117,9 @@ pub fn execute(case: &Case, seed: u64) -> Outcome {
                 Ok(c) => c,
                 Err(_) => return,
             };
+            if let Some(n) = local_shutdown {
+                let _ = conn.shutdown(n).await;
+            }
             loop {
                 out2.borrow_mut().accept_pending = true;
                 let r = conn.accept().await;
@@ -219,7 +227,16 @@ pub fn execute(case: &Case, seed: u64) -> Outcome {
             for i in 0..=case.ends.len() {
                 if i == case.goaway_at {
                     for id in &case.goaway_ids {
-                        net.raw_write(CLIENT, CLIENT_CTRL, &rf::frame(rf::GOAWAY, &refimpl::varint::encode(*id).unwrap()));
+                        let fr = rf::frame(rf::GOAWAY, &refimpl::varint::encode(*id).unwrap());
+                        if case.goaway_split {
+                            net.raw_write(CLIENT, CLIENT_CTRL, &fr[..2]);
+                            for _ in 0..4 {
+                                yield_now().await;
+                            }
+                            net.raw_write(CLIENT, CLIENT_CTRL, &fr[2..]);
+                        } else {
+                            net.raw_write(CLIENT, CLIENT_CTRL, &fr);
+                        }
                     }
                     yield_now().await;
                 }
@@ -373,7 +390,7 @@ pub fn burst_run(n: usize) -> (Vec<String>, bool, usize, Vec<(String, String)>) 
 }
 
 pub fn judge(case: &Case, o: &Outcome) -> Vec<(String, String)> {
-    let ctx = format!("requests (by stream id / 4) ending {:?}, arriving in {} id order, peer GOAWAY{} before arrival #{}", case.ends, if case.reversed { "descending" } else { "ascending" }, if case.goaway_ids != [0] { format!(" (identifiers {:?}){}", case.goaway_ids, if case.grease_starved { ", grease stream starved" } else { "" }) } else if case.grease_starved { " (grease stream starved)".to_string() } else { String::new() }, case.goaway_at);
+    let ctx = format!("requests (by stream id / 4) ending {:?}, arriving in {} id order, peer GOAWAY{} before arrival #{}{}{}", case.ends, if case.reversed { "descending" } else { "ascending" }, if case.goaway_ids != [0] { format!(" (identifiers {:?}){}", case.goaway_ids, if case.grease_starved { ", grease stream starved" } else { "" }) } else if case.grease_starved { " (grease stream starved)".to_string() } else { String::new() }, case.goaway_at, if let Some(n) = case.local_shutdown { format!(", after the server's own shutdown({n})") } else { String::new() }, if case.goaway_split { ", GOAWAY frame in two pieces" } else { "" });
     let mut out = Vec::new();
     for (t, p) in &o.panics {
         out.push((format!("C09:panic@{}", explore::panics::short_loc(p)), format!("{ctx}: task {t} panicked: {p}")));
@@ -420,7 +437,7 @@ pub fn run(args: &Args) -> i32 {
     let mut rep = Report::new("C09", args.tier, args.seed, "model_checking");
     rep.exhaustive = true;
     rep.rule = format!(
-        "0..{n} requests, each ending in one of {{normal finish, resolver dropped before resolve_request, FIN before HEADERS, RESET before HEADERS, RESET after HEADERS, RESET after half of the HEADERS frame / half of a DATA frame has been read, malformed headers, oversized headers, split into halves dropped send-first / recv-first, handler still running, response finished but the handle kept, split with the send half finished and dropped and the receive half kept}} (all {}^k assignments), the peer's GOAWAY injected before each request and after the last, requests arriving in ascending and in descending stream-ID order, the peer's GOAWAY carrying identifier 0, 0 twice, 3, 2^62-1, or 2^62-1 followed by 1 (client to server these are push ids; any value is legal), histories of <= 2 requests also with grease enabled and its unidirectional stream never granted by the peer, every execution with <= {bound} scheduling deviations among the accept loop, the handler tasks and the script. Oracle at quiescence: GOAWAY delivered and every handed-out request ended => accept() has returned Ok(None); accept() never returns Ok(None) while a handler still holds a request handle. states = distinct (transport, progress) fingerprints; non-trivial = cases with at least one request.",
+        "0..{n} requests, each ending in one of {{normal finish, resolver dropped before resolve_request, FIN before HEADERS, RESET before HEADERS, RESET after HEADERS, RESET after half of the HEADERS frame / half of a DATA frame has been read, malformed headers, oversized headers, split into halves dropped send-first / recv-first, handler still running, response finished but the handle kept, split with the send half finished and dropped and the receive half kept}} (all {}^k assignments), the peer's GOAWAY injected before each request and after the last, requests arriving in ascending and in descending stream-ID order, the peer's GOAWAY carrying identifier 0, 0 twice, 3, 2^62-1, or 2^62-1 followed by 1 (client to server these are push ids; any value is legal), histories of <= 2 requests also after the server's own shutdown(3), with the GOAWAY frame arriving in two pieces (header, pause, payload), and with grease enabled and its unidirectional stream never granted by the peer, every execution with <= {bound} scheduling deviations among the accept loop, the handler tasks and the script. Oracle at quiescence: GOAWAY delivered and every handed-out request ended => accept() has returned Ok(None); accept() never returns Ok(None) while a handler still holds a request handle. states = distinct (transport, progress) fingerprints; non-trivial = cases with at least one request.",
         ENDS.len()
     );
     rep.assumptions = vec!["liveness is decided at quiescence of the closed world (no timers, nothing in flight), where 'still pending' means 'pending forever'".into()];
@@ -442,14 +459,17 @@ pub fn run(args: &Args) -> i32 {
     }
     for c in combos {
         for g in 0..=c.len() {
-            cases.push(Case { ends: c.clone(), goaway_at: g, reversed: false, goaway_ids: vec![0], grease_starved: false });
+            cases.push(Case { ends: c.clone(), goaway_at: g, reversed: false, goaway_ids: vec![0], grease_starved: false, local_shutdown: None, goaway_split: false });
             if c.len() >= 2 {
-                cases.push(Case { ends: c.clone(), goaway_at: g, reversed: true, goaway_ids: vec![0], grease_starved: false });
+                cases.push(Case { ends: c.clone(), goaway_at: g, reversed: true, goaway_ids: vec![0], grease_starved: false, local_shutdown: None, goaway_split: false });
             }
             if c.len() <= 2 {
-                cases.push(Case { ends: c.clone(), goaway_at: g, reversed: false, goaway_ids: vec![0], grease_starved: true });
+                // the server's own shutdown(n) (n large enough to keep serving these requests) before the peer's GOAWAY
+                cases.push(Case { ends: c.clone(), goaway_at: g, reversed: false, goaway_ids: vec![0], grease_starved: false, local_shutdown: Some(3), goaway_split: false });
+                cases.push(Case { ends: c.clone(), goaway_at: g, reversed: false, goaway_ids: vec![0], grease_starved: false, local_shutdown: None, goaway_split: true });
+                cases.push(Case { ends: c.clone(), goaway_at: g, reversed: false, goaway_ids: vec![0], grease_starved: true, local_shutdown: None, goaway_split: false });
                 for ids in [vec![0, 0], vec![3], vec![(1 << 62) - 1], vec![(1 << 62) - 1, 1]] {
-                    cases.push(Case { ends: c.clone(), goaway_at: g, reversed: false, goaway_ids: ids, grease_starved: false });
+                    cases.push(Case { ends: c.clone(), goaway_at: g, reversed: false, goaway_ids: ids, grease_starved: false, local_shutdown: None, goaway_split: false });
                 }
             }
         }
@@ -483,7 +503,7 @@ pub fn run(args: &Args) -> i32 {
         if !case.ends.is_empty() {
             acc.nontrivial.insert(explore::fnv_str(&format!("{case:?}")));
         }
-        viol.drain_into(acc, |choices| json!({"ends": case.ends.iter().map(|e| format!("{e:?}")).collect::<Vec<_>>(), "goaway_at": case.goaway_at, "reversed": case.reversed, "goaway_ids": case.goaway_ids, "grease_starved": case.grease_starved, "choices": choices, "seed": seed}));
+        viol.drain_into(acc, |choices| json!({"ends": case.ends.iter().map(|e| format!("{e:?}")).collect::<Vec<_>>(), "goaway_at": case.goaway_at, "reversed": case.reversed, "goaway_ids": case.goaway_ids, "grease_starved": case.grease_starved, "local_shutdown": case.local_shutdown, "goaway_split": case.goaway_split, "choices": choices, "seed": seed}));
     });
     let mut total = Acc::new();
     for a in accs {
@@ -528,6 +548,8 @@ pub fn replay(r: &Value) -> i32 {
         goaway_at: r["goaway_at"].as_u64().unwrap() as usize,
         reversed: r["reversed"].as_bool().unwrap_or(false),
         grease_starved: r["grease_starved"].as_bool().unwrap_or(false),
+        local_shutdown: r["local_shutdown"].as_u64().map(|v| v as usize),
+        goaway_split: r["goaway_split"].as_bool().unwrap_or(false),
         goaway_ids: match r["goaway_ids"].as_array() {
             Some(a) => a.iter().map(|v| v.as_u64().unwrap()).collect(),
             None => if r["goaway_twice"].as_bool().unwrap_or(false) { vec![0, 0] } else { vec![0] },
